@@ -2,6 +2,8 @@
  * Keys and values are separately malloc'ed boxes (so ASan/LSan see every misuse and
  * leak); the comparison callback dereferences its arguments like the repo's own tests.
  * Node pointers are printed as indices (node - nodes). */
+/* container operations take microseconds: a 20 s watchdog per operation */
+#define VH_OP_TIMEOUT 20
 #include "vharness.h"
 #include "muggle/c/dsaa/heap.h"
 
